@@ -35,7 +35,7 @@ Want(e) ==
   CASE e.op = "gen"      -> <<TRUE, <<WGX, WGY>>>>
     [] e.op = "id"       -> <<TRUE, EId>>
     [] e.op = "srs"      -> <<TRUE, srs[e.a + 1]>>
-    [] e.op \in {"ypt", "rpt"} -> <<TRUE, e.pt>>            \* an input chosen by the driver; IValid below checks it is a group element
+    [] e.op \in {"ypt", "rpt", "spt"} -> <<TRUE, e.pt>>            \* an input chosen by the driver; IValid below checks it is a group element
     [] e.op = "add"      -> <<Okk(e.a) /\ Okk(e.b), EAdd(PAf(e.a), PAf(e.b))>>
     [] e.op = "addmixed" -> <<Okk(e.a) /\ Okk(e.b), EAdd(PAf(e.a), PAf(e.b))>>
     [] e.op = "sub"      -> <<Okk(e.a) /\ Okk(e.b), ESub(PAf(e.a), PAf(e.b))>>
@@ -49,7 +49,7 @@ Want(e) ==
     [] e.op \in {"normalize", "flip", "rescale"} -> <<Okk(e.d), PAf(e.d)>>
     [] OTHER             -> <<FALSE, EId>>
 
-Writes(e) == e.op \in {"gen", "id", "srs", "ypt", "rpt", "add", "addmixed", "sub", "double", "neg", "set", "encdec", "encdecu", "smul", "msm",
+Writes(e) == e.op \in {"gen", "id", "srs", "ypt", "rpt", "spt", "add", "addmixed", "sub", "double", "neg", "set", "encdec", "encdecu", "smul", "msm",
                        "normalize", "flip", "rescale", "zero", "inf"}
 Frame(e) == IF Writes(e) THEN {e.d} ELSE IF e.op = "bnorm" THEN {e.l[i] : i \in 1 .. Len(e.l)} ELSE {}
 
